@@ -117,6 +117,12 @@ static URI_INLINE UriBool URI_FUNC(EqualsHost)(const URI_TYPE(Uri) * first,
 					&second->hostData.ipFuture)) ? URI_TRUE : URI_FALSE;
 	}
 
+	/* Registered name (or no host at all): the other side must be of that kind, too */
+	if ((second->hostData.ip4 != NULL) || (second->hostData.ip6 != NULL)
+			|| (second->hostData.ipFuture.first != NULL)) {
+		return URI_FALSE;
+	}
+
 	return !URI_FUNC(CompareRange)(&first->hostText, &second->hostText)
 			? URI_TRUE : URI_FALSE;
 }
